@@ -300,10 +300,23 @@ func (e *Engine) NewHint(f solver.Hint, nbOutputs int, inputs ...frontend.Variab
 		}
 		tr.IO[idx] = [2][]*big.Int{in, res}
 	}
+	// taint: substituted outputs are the source; gnark's own hints and the limb split are part of
+	// the checking machinery of their input and pass taint on; MulAdd/Reduce/Inverse outputs are
+	// fresh prover values with constraints of their own.
+	var tainted uint16
+	if injected {
+		tainted = 1
+	} else if t := e.anyT(inputs...); t != 0 {
+		tainted = t
+		if kind != HintOther && kind != HintSplit && t < 1<<15 {
+			tainted = t + 1
+		}
+	}
 	out := make([]frontend.Variable, nbOutputs)
 	for i := range res {
 		v := new(V)
 		v.e.SetBigInt(res[i])
+		v.t = tainted
 		if e.mon != nil {
 			v.n = leafNode()
 			v.n.hint = kind
